@@ -577,7 +577,7 @@ pub fn zst_strategy() -> impl Strategy<Value = ZHist> {
 }
 
 pub fn run(ctx: &mut Ctx) {
-    ctx.rule = "histories Vec<Op> over push/pop/pop2/pop3/top/top2/top3/discard/push_many/try_extend(plain iterator)/set_max_stack_size/queries on Stack<u16> and Stack<String>, unique values per history, capacities {0,1,2,3,5,8,33,64,100,usize::MAX-1,usize::MAX}, bulk insertions of 0..6 and, less often, any count up to 71, try_extend iterators without a size hint and with valid but imprecise hints; lock-step against a Vec+capacity model after every op; plus, for the stacks inside a machine state, every instruction on all size combinations {0..3}^4 with the maximum of one stack (or all four) lowered below its size: an instruction that succeeds must not leave a value it produced on a stack that is above its maximum; plus histories on Stack<()> (zero-sized elements) with capacities up to usize::MAX and bulk insertions whose size added to the current size does not fit in a usize. non-trivial = length >= 5 with >= 1 failing op and >= 1 multi-element op; distinct by JSON encoding of the history".into();
+    ctx.rule = "histories Vec<Op> over push/pop/pop2/pop3/top/top2/top3/discard/push_many/try_extend(plain iterator)/set_max_stack_size/queries on Stack<u16> and Stack<String>, unique values per history, capacities {0,1,2,3,5,8,33,64,100,usize::MAX-1,usize::MAX}, bulk insertions of 0..6 and, less often, any count up to 71, try_extend iterators without a size hint and with valid but imprecise hints; lock-step against a Vec+capacity model after every op; plus histories on Stack<()> (zero-sized elements) with capacities up to usize::MAX and bulk insertions whose size added to the current size does not fit in a usize. non-trivial = length >= 5 with >= 1 failing op and >= 1 multi-element op; distinct by JSON encoding of the history".into();
     ctx.assumptions.push("zero-element insertion above a lowered maximum is unconstrained; is_full only compared while size <= max".into());
     let (n, len) = ctx.tier.pick((200_000, 40), (3_000_000, 400));
     ctx.run_prop("hist_u16", n, || hist_strategy(len), oracle_u16);
@@ -594,12 +594,6 @@ pub fn run(ctx: &mut Ctx) {
             }
         }
     }
-    // the stacks inside a machine state: instructions as insertions, on states whose maxima were lowered below the sizes
-    {
-        let t = crate::model::real::Tables::build();
-        let cases = crate::props::c02::lowered_shapes(&t, crate::splitmix(ctx.seed ^ 0xC04));
-        ctx.run_cases("instruction_results_above_lowered_maxima", cases, |c, p| crate::props::c02::oracle_lowered_insertions(&t, c, p));
-    }
     // coverage-guided search over the same strategies and oracles (thorough tier; see ptfuzz.rs)
     crate::ptfuzz::thorough(ctx, &[("c04z", 8, 2_000_000)]);
 }
@@ -609,10 +603,6 @@ pub fn replay(ctx: &mut Ctx, sub: &str, case: &Value) {
         "hist_string" => ctx.replay_case::<Hist, _>(sub, case, oracle_string),
         "hist_zero_sized" => ctx.replay_case::<ZHist, _>(sub, case, zst_oracle),
         "fuzz_stack_hist" => ctx.replay_case::<Hist, _>(sub, case, oracle_u16),
-        "instruction_results_above_lowered_maxima" => {
-            let t = crate::model::real::Tables::build();
-            ctx.replay_case::<crate::props::c02::LoweredCase, _>(sub, case, |c, p| crate::props::c02::oracle_lowered_insertions(&t, c, p));
-        }
         _ => ctx.replay_case::<Hist, _>(sub, case, oracle_u16),
     }
 }
